@@ -278,7 +278,9 @@ func genConcTx(r *rand.Rand, shard int, ds bool, kvSetsOnly bool, search bool, c
 			// a third key that is, at random, written already expired (timestamp far in the past: no verdict depends
 			// on the clock), live with a TTL far in the future, or deleted: read paths that treat expired records
 			// specially (lazy expiry, counters) run concurrently with each other
-			switch r.Intn(3) {
+			switch r.Intn(4) {
+			case 3: // a timestamp far in the future (a writer whose clock is ahead) with a short TTL: live
+				ops = append(ops, Op{K: "PutTS", B: b, Key: []byte("k3"), Val: val(), TS: modelNow() + 10000000, TTL: 1})
 			case 0:
 				ops = append(ops, Op{K: "PutTS", B: b, Key: []byte("k3"), Val: val(), TS: 1, TTL: 1})
 			case 1:
